@@ -88,7 +88,10 @@ Fires(s, j) ==            \* outcome of rule j's trigger when evaluated now
       [] r.tk = "never" -> 0
       [] r.tk = "every2" -> IF Vis(s.sc, "IT") % 2 = 0 THEN 1 ELSE 0
       [] r.tk = "scripted" -> IF s.tpos[j] < Len(TrigScript) THEN TrigScript[s.tpos[j] + 1] ELSE 0
-SrcVal(s, src) == IF src = "MISSING" THEN NoVal ELSE Vis(s.sc, src)     \* null if the source state is missing
+\* null if the source state is missing; PG is a float state the ins0 leaves keep next to K0 (0.75 * K0, logged in quarters)
+SrcVal(s, src) == IF src = "MISSING" THEN NoVal
+                  ELSE IF src = "PG" THEN (IF Vis(s.sc, "K0") = NoVal THEN NoVal ELSE 3 * Vis(s.sc, "K0"))
+                  ELSE Vis(s.sc, src)
 RECURSIVE Entries(_, _, _)
 Entries(s, j, acc) ==     \* one entry per fired rule, in rule order; the first rule wins for a repeated name
     IF j > Len(s.rules) THEN acc
@@ -100,7 +103,7 @@ LogExec(s) ==             \* every trigger is evaluated exactly once; a non-empt
         hasIt == \E x \in 1..Len(es) : es[x].n = "IT"
         step == IF hasIt THEN es ELSE <<[n |-> "IT", v |-> Vis(s.sc, "IT")]>> \o es
         s1 == [s EXCEPT !.tpos = [j \in 1..Len(s.rules) |-> IF s.rules[j].tk = "scripted" THEN @[j] + 1 ELSE @[j]],
-                        !.lx = Append(@, [sc |-> s.sc, fired |-> [j \in 1..Len(s.rules) |-> Fires(s, j)]])]
+                        !.lx = Append(@, [sc |-> s.sc, rules |-> s.rules, fired |-> [j \in 1..Len(s.rules) |-> Fires(s, j)]])]
     IN IF Len(es) = 0 THEN s1 ELSE [s1 EXCEPT !.log = Append(@, step)]
 
 RECURSIVE InitB(_, _, _), InitS(_, _, _), ReqB(_, _, _), ReqS(_, _, _), ExecB(_, _, _), ExecS(_, _, _),
@@ -182,7 +185,12 @@ ExecS(x, p, s) ==
                 \* variant "seed" (Scope::new_with): the scope's own state initialiser puts U := 5 into the CHILD state
                 \* before the body is initialised, and after a successful body its merge function writes K0 := 5
                 \* into the caller's top scope (it finds U in the child handed to it); nothing else crosses the border
-                LET s1 == [s EXCEPT !.sc = Append(@, IF x.v = "seed" THEN [EmptyScope EXCEPT !["U"] = 5] ELSE EmptyScope)]
+                \* ... and it adds a rule (always, U) to the log configuration of the run (State::configure_log from inside
+                \* the scope reaches the configuration the run was given; the rule stays when the scope is left)
+                LET s0 == IF x.v = "seed"
+                          THEN [s EXCEPT !.rules = Append(@, [tk |-> "always", src |-> "U"]), !.tpos = Append(@, 0)]
+                          ELSE s
+                    s1 == [s0 EXCEPT !.sc = Append(@, IF x.v = "seed" THEN [EmptyScope EXCEPT !["U"] = 5] ELSE EmptyScope)]
                     s2 == ExecB(x.b, p \o <<1>>, ReqB(x.b, p \o <<1>>, InitB(x.b, p \o <<1>>, s1)))
                     s3 == [s2 EXCEPT !.sc = SubSeq(@, 1, Len(@) - 1)]
                 IN IF x.v = "seed" /\ s3.st = "ok" THEN SetTop(s3, "K0", 5) ELSE s3
